@@ -37,7 +37,21 @@ def handle (op : String) (j : Json) : Option (R Json) :=
       let os ← getInt j "os"
       let shape ← shapeOfJson j "shape"
       let scratch ← scratchOfJson j
-      match propagateFft one fs.toList hasTilt w[0]! w[1]! dx[0]! dx[1]! du[0]! du[1]! wl z os shape scratch with
+      -- optional "wtype": the wavefront's plane type; then the call `propagateFftCall` (entry guards, then the body) is run
+      let wt ← match optVal j "wtype" with
+        | none => pure (none : Option Gen.WType)
+        | some Json.null => pure none
+        | some (Json.str s) => match Gen.WType.ofName? s with
+          | some t => pure (some t)
+          | none => throw s!"unknown wavefront type {s}"
+        | some _ => throw "wtype: string expected"
+      let (ptOut, body) ← match wt with
+        | none => pure ((none : Option Gen.WType), propagateFft one fs.toList hasTilt w[0]! w[1]! dx[0]! dx[1]! du[0]! du[1]! wl z os shape scratch)
+        | some t => match propagateFftCall t one fs.toList hasTilt w[0]! w[1]! dx[0]! dx[1]! du[0]! du[1]! wl z os shape scratch with
+          | .refusedBy e => return (errJ e.name)
+          | .done t' o => pure (some t', o)
+      let ptJ : Json := match ptOut with | some t => Json.str t.name | none => Json.null
+      match body with
       | .notImplemented => pure (errJ "NotImplementedError")
       | .valueError => pure (errJ "ValueError")
       | .ok lam S0 S1 so _ =>
@@ -46,7 +60,7 @@ def handle (op : String) (j : Json) : Option (R Json) :=
         let fld : Fld CF := { arr := freeze (fft2c (R := Float) grid), o0 := 0, o1 := 0 }
         let canvas := wavefrontField one [fld] so.1 so.2
         pure (okJ [("wavelength", floatToJson lam), ("fft_shape", ints #[S0, S1]), ("shape_out", ints #[so.1, so.2]),
-                   ("canvas", cfArrToJson canvas),
+                   ("canvas", cfArrToJson canvas), ("ptype", ptJ),
                    ("pixelscale", Json.arr #[floatToJson (fftMeta lam dx[0]! dx[1]! du[0]! du[1]! z wl os).2.1.1,
                                              floatToJson (fftMeta lam dx[0]! dx[1]! du[0]! du[1]! z wl os).2.1.2]),
                    ("focal_length", floatToJson (fftMeta lam dx[0]! dx[1]! du[0]! du[1]! z wl os).2.2)])
